@@ -384,6 +384,8 @@ def judge(ctx, run, base, sym, stats):
                 if x in a: a.remove(x)
             from collections import Counter as _C
             key = "fd-leak:" + ("+".join(f"{t}x{n}" if n > 1 else t for t, n in sorted(_C(a).items())) or "lost") + ":" + first_failure(run)
+        elif kind == "eintr-timeout-not-reduced":
+            key = kind + ":" + detail.split("(")[0]
         elif kind in ("alloc-leak", "lsan-leak", "active-reqs", "loop-alive", "loop-close", "stall", "invalid-free"):
             key = kind + ":" + first_failure(run)
         out.append((key, v[:400]))
@@ -494,6 +496,20 @@ def run(ctx):
         ctx.notes["fault_points_per_scenario"][s] = len(pts)
         specs += [f"{s} {p}" for p in pts]
         specs += [f"{s} {st}" for st in storms(bases[s])]
+    # EINTR that arrives after real time has elapsed (a periodic signal): every epoll_pwait / nanosleep occurrence once,
+    # with and without UV_METRICS_IDLE_TIME, plus periodic storms; the harness checks that the call is re-issued with the
+    # remaining time only and that the far timer / uv_sleep are not late
+    for s in SCENARIOS:
+        for ck in ("epoll_pwait@-", "nanosleep@-"):
+            for i in range(1, bases[s].counts.get(ck, 0) + 1):
+                specs.append(f"{s} sys:{ck}:{i}:EINTR eintr-after:50")
+                specs.append(f"{s} sys:{ck}:{i}:EINTR eintr-after:50 idle-metrics")
+        specs.append(f"{s} idle-metrics")
+    for pct in (10, 30, 50):
+        for extra in ("", " idle-metrics"):
+            specs.append(f"timers sys:epoll_pwait@-:1-400:EINTR eintr-after:{pct}{extra}")
+            specs.append(f"fs_poll sys:epoll_pwait@-:1-400:EINTR eintr-after:{pct}{extra}")
+        specs.append(f"os sys:nanosleep@-:1-50:EINTR eintr-after:{pct}")
     if ctx.quick:
         for _ in range(600):
             s = ctx.rng.choice(SCENARIOS)
@@ -575,7 +591,7 @@ def run(ctx):
         for sig, what in v:
             if sig in reported:
                 continue
-            if sig.split(":")[0] in ("stall", "hang"):
+            if sig.split(":")[0] in ("stall", "hang", "timer-late", "sleep-late"):
                 # timing-based monitors (watchdog / batch timeout): confirm in isolation, the machine may just be overloaded
                 again = [run_batch(ctx, exe, [r.spec])[0] for _ in range(2)]
                 if not any(s2 == sig for rr in again for s2, _ in judge(ctx, rr, bases.get(scen), sym, stats)):
